@@ -170,9 +170,12 @@ func sharingConfigs(env *engine.Env) []fixture.Doc {
 	docs = append(docs, mk(append([]model.Entry{{Src: "doc/README", Dst: "/usr/share/doc/pkg/changelog.Debian.gz"}}, plain...), func(d fixture.Doc) { d["changelog"] = t.P("changelog.yaml") }))
 	// relations with alternatives (a | b), ipk alternatives whose paths are not in clean form, rpm prefixes likewise
 	docs = append(docs, mk(plain, func(d fixture.Doc) {
-		d["depends"] = []any{"mta | sendmail", "libfoo (>= 1.0) | libfoo-compat", "plain"}
-		d["recommends"] = []any{"editor | vi"}
-		d["provides"] = []any{"virt-a | virt-b"}
+		// (names in mixed case, a versioned recommendation without any suggestion next to it)
+		d["depends"] = []any{"mta | sendmail", "libfoo (>= 1.0) | libfoo-compat", "plain", "ImageMagick (>= 6.9)", "LibBar"}
+		d["recommends"] = []any{"editor | vi", "nice (>= 1.0)", "Fine >= 2"}
+		d["provides"] = []any{"virt-a | virt-b", "Virt-C"}
+		d["conflicts"] = []any{"OldPkg (<< 2)"}
+		d["replaces"] = []any{"OldPkg"}
 		d["ipk"] = map[string]any{"alternatives": []any{map[string]any{"priority": 100, "target": "usr/bin/vi", "link_name": "/usr/bin//x"}, map[string]any{"priority": 50, "target": "/usr/./bin/app", "link_name": "bin/editor/"}}}
 		d["rpm"] = map[string]any{"buildhost": "buildhost.example", "prefixes": []any{"usr//local", "/opt/./x/"}}
 	}))
@@ -180,6 +183,13 @@ func sharingConfigs(env *engine.Env) []fixture.Doc {
 	docs = append(docs, mk(plain, func(d fixture.Doc) {
 		oc := fixture.ContentsYAML(specs([]model.Entry{{Src: "bin/app", Dst: "/usr/bin/app"}, {Src: "etc/app.conf", Dst: "/etc/only-rpm.conf", Packager: "rpm", Type: "config"}, {Src: "etc/app.conf", Dst: "/etc/only-deb.conf", Packager: "deb", Type: "config"}, {Src: "etc/app.conf", Dst: "/etc/only-apk.conf", Packager: "apk"}, {Dst: "/var/lib/from-override", Type: "dir", HasInfo: true, Owner: "app"}}), t.Root)
 		d["overrides"] = map[string]any{"deb": map[string]any{"contents": oc, "depends": []any{"from-the-block"}}}
+	}))
+	// an override block whose contents name a source that does not exist: that format cannot be packaged, the others
+	// - whose contents are the general ones - can, whatever was validated or attempted before
+	docs = append(docs, mk(plain, func(d fixture.Doc) {
+		oc := fixture.ContentsYAML(specs([]model.Entry{{Src: "bin/app", Dst: "/usr/bin/app"}, {Src: "etc/app.conf", Dst: "/etc/from-override.conf", Type: "config"}}), t.Root)
+		oc = append(oc, map[string]any{"src": t.P("no/such/source.conf"), "dst": "/etc/missing.conf"})
+		d["overrides"] = map[string]any{"deb": map[string]any{"contents": oc}, "apk": map[string]any{"contents": oc}}
 	}))
 	// everything together
 	all := mk(append(append([]model.Entry{}, partial...), tagged[1:]...), func(d fixture.Doc) {
